@@ -312,7 +312,8 @@ def path_lines(pid, p, g):
         lines.append("fp new %s %s %s %d %s %d %d %s" % (pid, fl(sp[0][0] * g), fl(sp[0][1] * g), len(p["els"]), fl(p["tol"] * g),
                                                         1 if p["simple"] else 0, 1 if p["scale_width"] else 0, els))
         for i, e in enumerate(p["els"]):
-            lines.append("fp elem %s %d %d %d %s %s 0 0" % (pid, i, e.get("join", 0), END_CODE[e["end"]], fl(e["ext"][0] * g), fl(e["ext"][1] * g)))
+            lines.append("fp elem %s %d %d %d %s %s %s" % (pid, i, e.get("join", 0), END_CODE[e["end"]], fl(e["ext"][0] * g), fl(e["ext"][1] * g),
+                                                          ("1 " + fl(e["bend"] * g)) if e.get("bend") else "0 0"))
         lines.append("fp seg %s 0 %d %s - -" % (pid, len(sp) - 1, " ".join(fl(c * g) for q in sp[1:] for c in q)))
         kind = "fp"
     else:
